@@ -21,7 +21,7 @@ from ..engine.model import AnalysisError, src, walk_own
 from ..engine.flow import Flow
 from ..engine.inline import Inliner
 from ..engine.typestate import EventDomain
-from .armstate import ArmChecker, ARM
+from .armstate import ArmChecker, ARM, self_field
 from .common_ops import pinv_cutoff
 from .c05 import r050
 
@@ -72,14 +72,28 @@ def check(model, rep):
     rep.rule('R06.1', 'body screws re-derived after the last write of home pose / space screws on every path of every public method')
     res, writers = ck.exit_marks('body')
     n = 0
+    # which methods reach (through any chain of self-calls) a method that writes the home pose / the space or body screws
+    def self_calls(f_):
+        return {c.func.attr for c in walk_own(f_.node) if isinstance(c, ast.Call) and isinstance(c.func, ast.Attribute)
+                and isinstance(c.func.value, ast.Name) and c.func.value.id == 'self' and c.func.attr in arm.methods}
+    MARK = ('_end_effector_home ', '_end_effector_home=', 'self.screw_list ', 'self.screw_list[', 'screw_list_body')
+    direct = {f_.name for f_, (_b, _n, own_) in res.items() if any(any(x in src(w) for x in MARK) for w in own_)}
+    for name_, f_ in arm.methods.items():
+        if any(isinstance(n_, (ast.Assign, ast.AugAssign)) and any(x in src(n_) + ' ' for x in MARK) and any(
+                self_field(t_) in ('_end_effector_home', 'screw_list', 'screw_list_body') for t_ in (n_.targets if isinstance(n_, ast.Assign) else [n_.target]))
+               for n_ in walk_own(f_.node)):
+            direct.add(name_)
+    reach = set(direct)
+    changed = True
+    while changed:
+        changed = False
+        for name_, f_ in arm.methods.items():
+            if name_ not in reach and self_calls(f_) & reach:
+                reach.add(name_)
+                changed = True
     for fi, (bad, n_exits, own) in sorted(res.items(), key=lambda kv: kv[0].name):
-        body_writes = [w for w in own if any(x in src(w) for x in ('_end_effector_home ', '_end_effector_home=', 'self.screw_list ', 'self.screw_list[', 'screw_list_body'))]
-        if not bad and not body_writes:
-            # methods that only reach writers through calls still count when they call initialize / tool-change methods
-            calls = {c.func.attr for c in walk_own(fi.node) if isinstance(c, ast.Call) and isinstance(c.func, ast.Attribute)
-                     and isinstance(c.func.value, ast.Name) and c.func.value.id == 'self'}
-            if not calls & {'initialize', 'setArbitraryHome', 'restoreOriginalEE', 'move'}:
-                continue
+        if not bad and fi.name not in reach:
+            continue
         n += 1
         if bad:
             for text, (line, ex) in sorted(bad.items()):
